@@ -182,10 +182,20 @@ def _div0(a, b):
     return z3.If(b == 0, z3.RealVal(0), a / b)
 
 
-def _init_unit(estimands, policy, name):
+def _init_unit(estimands, policy, name, prepared=False):
     @unit("C09", f"init.{name}.{policy}", fns=[f"{CDH}.__init__", f"{EST}.Estimandizer.add_estimand_results", f"{EST}.Estimandizer.add_estimand_baselines", f"{EST}.Estimandizer.add_weights", f"{EST}.Estimandizer.add_turnout_factor", f"{EST}.margin"])
     def init(h):
         root, base, feed, s = _feed_and_baseline(h, estimands)
+        if prepared:
+            # "for all feeds": the feed of a historical / command-line run has ALREADY been through the estimandizer once
+            # (MockLiveDataHandler.load_data: real add_estimand_results, then only the returned columns are kept -- no
+            # dem / gop columns any more); the derived quantities must survive the second pass in CombinedDataHandler
+            kind, r = h.call_method(h.obj(f"{EST}.Estimandizer"), "add_estimand_results", feed, list(estimands), False)
+            if kind == "raise":
+                return h.fail("first_pass.no_raise", f"raised {r}")
+            feed1, cols = r
+            h.ensures("first_pass.returned_columns", isinstance(cols, list) and "results_weights" in cols and "results_turnout" in cols, why=str(cols))
+            feed = h.interp.getitem(feed1, ["postal_code", "geographic_unit_fips", "percent_expected_vote"] + list(cols))
         # the preprocessed table as the client passes it: PreprocessedDataHandler.load_data ->
         # Estimandizer.add_estimand_baselines (real code), not historical
         est = h.obj(f"{EST}.Estimandizer")
@@ -223,7 +233,15 @@ def _init_unit(estimands, policy, name):
         h.ensures("joined.percent", z3.Implies(rowf, z3.And(pev.t == (s["percent_expected_vote"] if policy == "drop" else z3.If(matched, s["percent_expected_vote"], 0)), z3.Not(pev.nan) if pev.nan is not None else True)))
         tf = data.col("turnout_factor")
         rw = z3.If(matched, rw_spec, 0) if policy == "zero" else rw_spec
-        h.ensures("derived.turnout_factor", z3.Implies(rowf, z3.And(tf.t == _div0(rw, bw_spec), tf.nan is None, tf.inf is None)))
+
+        def rpd(ev):
+            if not (ev(s["inBase"]) and ev(matched)):
+                return None
+            unit_ = {k: float(ev(s[k])) for k in ("baseline_turnout", "baseline_dem", "baseline_gop", "results_turnout", "results_dem", "results_gop")}
+            unit_["pev"] = float(ev(s["percent_expected_vote"]))
+            return {"target": "verif_replays:derived_quantities_replay", "args": [unit_, policy, list(estimands), bool(prepared)], "check": "result['exc'] is None and result['ok']"}
+
+        h.ensures("derived.turnout_factor", z3.Implies(rowf, z3.And(tf.t == _div0(rw, bw_spec), tf.nan is None, tf.inf is None)), replay=rpd)
         if "margin" in estimands:
             nm = data.col("results_normalized_margin")
             m = s["results_dem"] - s["results_gop"]
@@ -233,8 +251,8 @@ def _init_unit(estimands, policy, name):
                 # unmatched rows: results_margin is filled with 0 but the derived normalised margin column of the
                 # feed is null for them -- it is not among the filled columns; the statement asks for 0-not-NaN
                 pass
-            h.ensures("derived.normalized_margin", z3.Implies(z3.And(rowf, matched), z3.And(nm.t == want, z3.Not(nm.nan) if nm.nan is not None else True)))
-            h.ensures("derived.weights", z3.Implies(z3.And(rowf, matched), data.col("results_weights").t == wv))
+            h.ensures("derived.normalized_margin", z3.Implies(z3.And(rowf, matched), z3.And(nm.t == want, z3.Not(nm.nan) if nm.nan is not None else True)), replay=rpd)
+            h.ensures("derived.weights", z3.Implies(z3.And(rowf, matched), data.col("results_weights").t == wv), replay=rpd)
 
     return init
 
@@ -242,3 +260,5 @@ def _init_unit(estimands, policy, name):
 for _e, _n in ((["turnout"], "turnout"), (["margin"], "margin"), (["dem", "turnout"], "dem_turnout")):
     for _p in ("drop", "zero"):
         _init_unit(_e, _p, _n)
+for _p in ("drop", "zero"):
+    _init_unit(["margin"], _p, "margin_feed_already_estimandized", prepared=True)
